@@ -6,31 +6,18 @@ Import ListNotations.
 Open Scope Z_scope.
 
 (* ------------------------------------------------------------------ *)
-(* (A) window count on the raw constructor arguments                    *)
-
-Lemma nwin_raw_exact ns nswin ov : nwin_raw 0 ns nswin ov = nwin ns nswin ov.
-Proof. reflexivity. Qed.
-
-Lemma nwin_raw_no_wrap ubits ns nswin ov :
-  0 < ubits -> 0 <= nswin <= ns -> ns < 2 ^ ubits ->
-  nwin_raw ubits ns nswin ov = nwin ns nswin ov.
+(* signal not longer than the window: exactly one window, the whole signal,
+   and the count says so (the class on which the count used to wrap for
+   unsigned arguments before repo 01d7a00) *)
+Lemma short_signal_single_window ns nswin ov :
+  1 <= ns <= nswin -> 0 <= ov < nswin ->
+  nwin ns nswin ov = 1 /\ firstlast ns nswin ov = Some [(0, ns)].
 Proof.
-  intros Hu Hw Hn. unfold nwin_raw, nwin.
-  destruct (ubits =? 0) eqn:E; [lia|].
-  rewrite Z.mod_small by lia. reflexivity.
-Qed.
-
-Lemma nwin_raw_wraps ubits ns nswin ov :
-  0 < ubits -> 1 <= ns < nswin -> nswin < 2 ^ ubits -> 0 <= ov < nswin ->
-  nwin ns nswin ov = 1 /\ 2 <= nwin_raw ubits ns nswin ov.
-Proof.
-  intros Hu Hn Hw Hov. split.
-  - unfold nwin. pose proof (cdiv_nonpos (ns - nswin) (nswin - ov) ltac:(lia) ltac:(lia)). lia.
-  - unfold nwin_raw. destruct (ubits =? 0) eqn:E; [lia|].
-    assert (Hm : (ns - nswin) mod 2 ^ ubits = ns - nswin + 2 ^ ubits).
-    { symmetry. apply (Z.mod_unique _ _ (-1)); lia. }
-    rewrite Hm.
-    pose proof (cdiv_pos (ns - nswin + 2 ^ ubits) (nswin - ov) ltac:(lia) ltac:(lia)). lia.
+  intros Hn Hov.
+  assert (H1 : nwin ns nswin ov = 1).
+  { unfold nwin. pose proof (cdiv_nonpos (ns - nswin) (nswin - ov) ltac:(lia) ltac:(lia)). lia. }
+  split; [exact H1|]. unfold firstlast. rewrite H1. change (Z.to_nat 1) with 1%nat.
+  cbn [firstlast_loop]. replace (Z.min (0 + nswin) ns) with ns by lia. rewrite Z.eqb_refl. reflexivity.
 Qed.
 
 (* ------------------------------------------------------------------ *)
